@@ -454,6 +454,42 @@ def rule_r4(chk, F, c):
                 r.violation(key, "%s publishes work to `%s` (%s) but pop() never looks at it: items left there are "
                                  "never processed while every worker reports empty and terminates" % (name, fld, where),
                             where)
+        # the examination must not be skippable: on the call path pop() → … → <function that pops the pool> every
+        # function reaches the next hop on all of its paths (Option::or_else's closure runs exactly when the earlier
+        # steps found nothing, which is the intended short-circuit)
+        for fld, where in sorted(pushed.items()):
+            tgt = popped.get(fld)
+            if tgt is None or tgt in popfn:
+                continue
+            back = cg.callers_closure([tgt], stop=lambda x: not x.startswith(ty))
+            on_path = [f for f in reach | set(popfn) if f in back and f != tgt and f.startswith(ty + "::")]
+            for f in sorted(on_path):
+                B = cg.body(f)
+                if B is None:
+                    continue
+                hops = []
+                for call in B.calls:
+                    tg = [t for (t, k) in cg.targets(call.fn)] if call.fn else []
+                    if any(t == tgt or t in back for t in tg):
+                        hops.append(call)
+                # closure creation sites count as hops too (the closure is handed to a combinator in the same block)
+                for bi, blk in enumerate(B.blocks):
+                    for st in blk["s"]:
+                        if st[0] == "a" and st[2][0] == "agg" and st[2][1][0] == "closure" and (
+                                st[2][1][1] == tgt or st[2][1][1] in back):
+                            hops.append(type("H", (), {"block": bi, "line": st[3]})())
+                if not hops:
+                    continue
+                key = "%s:pool:%s:via:%s" % (name, fld, last(f) if "{closure" not in f else f.split("::")[-2] + "::" + last(f))
+                ok = any(B.postdominates(h.block, 0) for h in hops)
+                r.instance(key, sample={"fn": f, "pool": fld, "unconditional": ok})
+                if not ok:
+                    r.violation(key + ":examination-skippable",
+                                "%s publishes work to `%s`, but on the way from pop() to the code that takes work back "
+                                "out of it, `%s` can return without getting there (a condition guards the look-up): "
+                                "under that condition items stay in the pool while pop() reports empty, the worker "
+                                "offers termination and the phase ends with unprocessed work" % (name, fld, last(f)),
+                                "%s:%d" % (B.file, hops[0].line))
         if "worker" in pushed:
             r.instance("%s:pool:stealers" % name)
             if "stealers" not in popped:
